@@ -26,24 +26,31 @@ zero-extends according to the *source* type, narrowing truncates. -/
 def conv (srcSigned : Bool) (m : Nat) (a : BitVec n) : BitVec m :=
   if srcSigned then a.signExtend m else a.setWidth m
 
+/-- Shift counts are capped at the operand width before they reach `Nat` shifts:
+Go shifts "behave as if the left operand is shifted `c` times by 1" (no masking, no
+upper limit), and shifting `width` times already gives the limit value (0, or all
+sign bits); the cap also keeps the compiled driver away from astronomically large
+`Nat` shifts. -/
+def cap (n : Nat) (c : BitVec m) : Nat := min c.toNat n
+
 /-- `a << c` with an unsigned count: no masking, a count ≥ width gives 0. -/
-def shlU (a : BitVec n) (c : BitVec m) : BitVec n := a <<< c.toNat
+def shlU (a : BitVec n) (c : BitVec m) : BitVec n := a <<< cap n c
 
 /-- `a >> c`, `a` signed, unsigned count: arithmetic. -/
-def sshrU (a : BitVec n) (c : BitVec m) : BitVec n := a.sshiftRight c.toNat
+def sshrU (a : BitVec n) (c : BitVec m) : BitVec n := a.sshiftRight (cap n c)
 
 /-- `a >> c`, `a` unsigned, unsigned count: logical. -/
-def ushrU (a : BitVec n) (c : BitVec m) : BitVec n := a >>> c.toNat
+def ushrU (a : BitVec n) (c : BitVec m) : BitVec n := a >>> cap n c
 
 /-- signed shift count: Go panics when it is negative. -/
 def shlS (a : BitVec n) (c : BitVec m) : M (BitVec n) :=
-  if c.slt 0 then throw (.panic "negative shift amount") else pure (a <<< c.toNat)
+  if c.slt 0 then throw (.panic "negative shift amount") else pure (a <<< cap n c)
 
 def sshrS (a : BitVec n) (c : BitVec m) : M (BitVec n) :=
-  if c.slt 0 then throw (.panic "negative shift amount") else pure (a.sshiftRight c.toNat)
+  if c.slt 0 then throw (.panic "negative shift amount") else pure (a.sshiftRight (cap n c))
 
 def ushrS (a : BitVec n) (c : BitVec m) : M (BitVec n) :=
-  if c.slt 0 then throw (.panic "negative shift amount") else pure (a >>> c.toNat)
+  if c.slt 0 then throw (.panic "negative shift amount") else pure (a >>> cap n c)
 
 /-- signed `/`: truncated; panics on a zero divisor; `min / -1 = min` (wraps). -/
 def sdiv (a b : BitVec n) : M (BitVec n) :=
